@@ -52,11 +52,13 @@ def gen_cases(rng, tier):
         else:
             c = {'kind': 'validate', 'names': names, 'rows': rows_enc(rows),
                  'schema': dict((f, rng.pick(TYPES)) for f in names), 'policy': pol}
+        # how a custom handler is written: all parameters required, the last one(s) with defaults, a callable object
+        c['shape'] = rng.pick(['required', 'default', 'extra', 'object'])
         cases.append(c)
     return cases
 
 
-def mk_policy(pol, log):
+def mk_policy(pol, log, shape='required'):
     if pol == 'default':
         return None
     if pol == 'raise':
@@ -67,12 +69,26 @@ def mk_policy(pol, log):
         def h4(res_name, row, i, e):
             log.append([None, i])
             return i % 2 == 0
-        return h4
+
+        class H4:
+            def __call__(self, res_name, row, i, e):
+                return h4(res_name, row, i, e)
+        return H4() if shape == 'object' else h4
 
     def h5(res_name, row, i, e, field):
         log.append([field.name, i])
         return (i + len(field.name)) % 2 == 0
-    return h5
+
+    def h5_default(res_name, row, i, e, field=None):
+        return h5(res_name, row, i, e, field)
+
+    def h5_extra(res_name, row, i, e, field, verbose=False):
+        return h5(res_name, row, i, e, field)
+
+    class H5:
+        def __call__(self, res_name, row, i, e, field):
+            return h5(res_name, row, i, e, field)
+    return {'required': h5, 'default': h5_default, 'extra': h5_extra, 'object': H5()}[shape]
 
 
 def _tr(v):
@@ -96,7 +112,7 @@ def field_desc(case, f):
 def run_impl(case):
     rows = rows_dec(case['rows'])
     log = []
-    pol = mk_policy(case['policy'], log)
+    pol = mk_policy(case['policy'], log, case.get('shape', 'required'))
     if case['kind'] == 'set_type':
         res = [mk_resource('t', case['names'], rows, types=dict((f, 'any') for f in case['names']))]
         if case['two']:
